@@ -106,7 +106,7 @@ theorem jsStep_show {text : Bytes} {s : CSt} {k : JsS} {c : UInt8} (hc : showByt
     simp only [jsStep, f7, Bool.false_eq_true, if_false]
     exact ⟨rfl, ⟨h1, h2, h3, h4⟩, by first | rfl | trivial⟩
   | strBs q =>
-    obtain ⟨h1, h2, h3, h4, _⟩ := hr
+    obtain ⟨h1, h2, h3, h4⟩ := hr
     have hq : (c == q) = false := by rcases h4 with rfl | rfl <;> assumption
     simp only [jsStep, jsStr, f7, hq, f8, f9, Bool.or_self, Bool.false_eq_true, if_false]
     exact ⟨rfl, ⟨h1, h2, h3, h4⟩, by first | rfl | trivial⟩
@@ -139,7 +139,7 @@ theorem cssStep_show {text : Bytes} {s : CSt} {k : CssS} {c : UInt8} (hc : showB
     simp only [cssStep, f7, Bool.false_eq_true, if_false]
     exact ⟨rfl, ⟨h1, h3, h4⟩, by first | rfl | trivial⟩
   | strBs q =>
-    obtain ⟨h1, h3, h4, _⟩ := hr
+    obtain ⟨h1, h3, h4⟩ := hr
     have hq : (c == q) = false := by rcases h4 with rfl | rfl <;> assumption
     simp only [cssStep, cssStr, f7, hq, f8, f9, f10, Bool.or_self, Bool.false_eq_true, if_false]
     exact ⟨rfl, ⟨h1, h3, h4⟩, by first | rfl | trivial⟩
